@@ -20,6 +20,21 @@ assigned attributes, member of an emulsion / track / time course, rendered befor
 members of one or several classes built by nine routes, and after every rendering: the caller's droplet, argument
 arrays, emulsion and grid are what they were; a second rendering is identical and lives in fresh memory; a result of
 the wrong class / dtype / shape or an undocumented exception is a failure with that input.
+
+State kept between calls (input_dimensions 8; histogram keys sequence_*): pools of grids, droplets and emulsions that
+are built once and used by 10-20 calls -- the same droplet on grid A, then on a grid B that shares shape / spacing /
+mean spacing / cell volume / periodicity with A but differs otherwise (other origin, other period, no periodic axis,
+spacings of two axes swapped, other inner radius, z range shifted, dr and dz swapped), then on A again, in both orders,
+with the centre outside the box of the periodic grid; twin droplets (same bytes but for the centre / the radius / the
+width / the order or sign of the amplitudes); typed images; emulsions (of the very member objects and of copies)
+rendered after their members; a rejected call in between; an earlier call repeated; the caller overwriting an output
+it holds.  Every call must equal (1) the same call on fresh equal objects, bit for bit, (2) the same call on fresh
+objects in a process forked before this process rendered anything (module- or class-level state cannot have been
+touched there), (3) the geometry of the spec (judge_picture); after every call the droplets, emulsions, argument
+arrays, shared vmin / vmax objects, the arrays the grids cache (cell_coords, cell_volumes, ...) and all earlier
+outputs are what they were.  gen_shapes.state_guard refuses (golden fallback, doubled sequence stream) caching
+decorators, global / nonlocal, module-level containers, `__dict__` / function attributes, and in-place operators, item
+assignments, `out=` and mutating methods on (aliases of) arguments in every function of the rendering path.
 """
 from __future__ import annotations
 
@@ -55,6 +70,8 @@ TRUSTED = [
     "compared cell by cell inside Coq on coarse-dyadic inputs)",
     "scipy.special.sph_harm_y (harmonics of the perturbed 3-d classes; compared with an independent Legendre "
     "recurrence in the oracle)",
+    "os.fork: the reference evaluations of the sequence oracle run in children of four servers forked from the check "
+    "process before it renders anything (one child per call, fresh objects)",
 ]
 ASSUME = [
     "R-layer theorems are over Coq's reals; the implementation evaluates in binary64, so statements about the "
@@ -75,7 +92,8 @@ ASSUME = [
 ]
 SUSPECTED: list = []  # inputs of the extended streams that make the unchanged tree fail (none found): reported, not judged
 RULE = ("one evaluation = one (droplet, grid, vmin/vmax) rendering or one roll / emulsion / dimension-mismatch / "
-        "mask-correspondence (Cartesian or symmetric grid) / angle / sample-goal case; distinct = sha1 of the canonical case description; a case is "
+        "mask-correspondence (Cartesian or symmetric grid) / angle / sample-goal case or one sequence of 10-20 calls on "
+        "a shared pool of objects; distinct = sha1 of the canonical case description; a case is "
         "non-trivial when the image is neither constant nor empty of inside cells (roll, emulsion, mask cases: "
         "at least one inside and one outside cell), sample goals always")
 
@@ -200,7 +218,7 @@ def witnesses_changed(wit) -> list[str]:
 
 def droplet_state(drop):
     """everything a droplet object stores: class, record layout, record bytes"""
-    return (type(drop).__name__, str(drop.data.dtype), drop.data.tobytes())
+    return (type(drop).__name__, drop.data.dtype, drop.data.tobytes())
 
 
 def construct_droplet(ds: dict, wit: list | None = None):
@@ -563,11 +581,20 @@ def _check_render(case: dict, hist, out: list) -> None:
     if hist is not None and "label" in case:
         hist("label_keyword", f"label={'None' if case['label'] is None else 'str'} -> field.label "
                               f"{'kept' if res.label == case['label'] else 'differs (measured, not judged)'}")
+    judge_picture(case, f, fb, typed, res2, hist, fail)
+
+
+def judge_picture(case: dict, f, fb, typed, res2, hist, fail) -> None:
+    """the clauses of the property text for one float image `f` (scaled with the case's vmin / vmax), optionally the
+    boolean image `fb`, a typed image and a second rendering, judged against the geometry of the SPEC (state-free
+    reference: nothing here depends on what the implementation did before)"""
+    gs, ds, vmin, vmax = case["grid"], case["droplet"], float(case["vmin"]), float(case["vmax"])
+    extra = case.get("extra")
     dist, angles, amb, typ = ref_geometry(gs, ds["position"])
-    if f.shape != dist.shape or fb.shape != dist.shape:
+    if f.shape != dist.shape or (fb is not None and fb.shape != dist.shape):
         fail(f"field has shape {f.shape}, grid has {dist.shape}")
         return
-    if fb.dtype != np.dtype(bool):
+    if fb is not None and fb.dtype != np.dtype(bool):
         fail(f"_get_phase_field(dtype=bool) returned dtype {fb.dtype}")
         return
     # ---- finite
@@ -608,7 +635,7 @@ def _check_render(case: dict, hist, out: list) -> None:
         hist("cells", "excluded: knife edge / undetermined direction", int(knife.sum()))
         hist("cells", "compared with the geometry", int(ok.sum()))
     # dtype=bool image: the indicator
-    if np.any((fb != inside) & ok):
+    if fb is not None and np.any((fb != inside) & ok):
         idx = tuple(int(i) for i in np.argwhere((fb != inside) & ok)[0])
         fail("boolean image differs from `distance < interface distance`", cell=idx, image=bool(fb[idx]),
              dist=float(dist[idx]), interface=float(iface[idx]))
@@ -861,7 +888,506 @@ def check_mismatch(case: dict, hist=None) -> list[dict]:
     return out
 
 
-CHECKS = {"render": check_render, "roll": check_roll, "emulsion": check_emulsion, "mismatch": check_mismatch}
+# =========================================================================================
+# sequences within one process: state kept between calls (input_dimensions 8)
+# =========================================================================================
+# A sequence case holds a pool of grid specs, droplet specs and emulsions (index lists) and a list of steps.  The
+# objects of the pool are built ONCE and reused by all steps; every step is compared with
+#   (1) the same call on fresh equal objects in this process (bit-identical),
+#   (2) the same call on fresh objects in a process forked from a state in which nothing has been rendered yet
+#       (reference digests: module-level / class-level state cannot have been touched there),
+#   (3) the geometry of the spec (judge_picture: the state-free reference of the property oracle),
+# and after every step the droplets, the caller's argument arrays, the shared vmin / vmax objects, the arrays the
+# grids cache and all outputs of earlier steps (kept alive) must be what they were.
+def arr_digest(a) -> str:
+    import hashlib
+    a = np.asarray(a)
+    return hashlib.sha1(repr((a.dtype.str, a.shape)).encode() + np.ascontiguousarray(a).tobytes()).hexdigest()[:20]
+
+
+def out_digest(o) -> str:
+    return o if isinstance(o, str) else arr_digest(o)
+
+
+GRID_CACHED = ["cell_coords", "cell_volumes", "cell_volume_data", "axes_coords", "axes_bounds", "discretization",
+               "typical_discretization", "volume", "periodic", "shape"]
+
+
+def arr_state(a) -> tuple:
+    a = np.asarray(a)
+    return (a.dtype.str, a.shape, a.tobytes())
+
+
+def out_state(o):
+    return o if isinstance(o, str) else arr_state(o)
+
+
+def grid_cache_state(grid) -> tuple:
+    """content of the arrays / values a grid object caches (cached_property results are shared by all callers)"""
+    out = []
+    for name in GRID_CACHED:
+        v = getattr(grid, name, None)
+        if isinstance(v, (tuple, list)):
+            out.append((name, tuple(arr_state(x) for x in v)))
+        else:
+            out.append((name, arr_state(v)))
+    return tuple(out) + (("state", repr(grid.state)),)
+
+
+def step_call(step: dict, grid, drops: list, emulsion=None, vshared=None):
+    """evaluate one step on the given objects -> ndarray, or 'EXC:<kind>'"""
+    from droplets.emulsions import Emulsion
+    try:
+        with np.errstate(all="ignore"):
+            if step["op"] == "render":
+                if vshared is not None:
+                    vmin, vmax = vshared
+                else:
+                    vmin, vmax = float(step["vmin"]), float(step["vmax"])
+                return np.asarray(drops[0].get_phase_field(grid, vmin=vmin, vmax=vmax).data)
+            if step["op"] == "typed":
+                return np.asarray(drops[0]._get_phase_field(grid, dtype=EXTRA_DTYPES[step["dtype"]]))
+            if step["op"] == "mismatch":
+                return np.asarray(drops[0].get_phase_field(grid).data)
+            if step["op"] == "emulsion":
+                em = emulsion if emulsion is not None else Emulsion(drops, copy=step.get("copy", True))
+                return np.asarray(em.get_phasefield(grid).data)
+    except Exception as e:
+        return "EXC:" + exc_kind(e)
+    raise ValueError(step["op"])
+
+
+def step_specs(case: dict, step: dict) -> tuple:
+    """(grid spec, droplet specs) a step works on"""
+    gs = case["mismatch_grid"] if step["op"] == "mismatch" else case["grids"][step["g"]]
+    idx = case["emulsions"][step["e"]]["members"] if step["op"] == "emulsion" else [step["d"]]
+    return gs, [case["droplets"][i] for i in idx]
+
+
+def step_fresh(case: dict, step: dict):
+    """the same call on fresh equal objects"""
+    gs, dss = step_specs(case, step)
+    try:
+        grid = make_grid(gs)
+        drops = [make_droplet(d) for d in dss]
+    except Exception as e:
+        return "EXC:construct:" + exc_kind(e)
+    st = dict(step)
+    if step["op"] == "emulsion":
+        st["copy"] = case["emulsions"][step["e"]].get("copy", True)
+    return step_call(st, grid, drops)
+
+
+def step_key(case: dict, step: dict) -> str:
+    import hashlib
+    gs, dss = step_specs(case, step)
+    call = {k: v for k, v in step.items() if k not in ("d", "g", "e", "note")}
+    if step["op"] == "emulsion":
+        call["copy"] = case["emulsions"][step["e"]].get("copy", True)
+    return hashlib.sha1(json.dumps([gs, dss, call], sort_keys=True, default=str).encode()).hexdigest()[:20]
+
+
+def forked_digests(requests: list) -> dict:
+    """{key: digest} of step_fresh(case, step) for requests [(key, case, step)], each evaluated in its own child
+    forked from THIS process (call it while this process has not rendered anything yet)"""
+    import os
+    out = {}
+    for key, case, step in requests:
+        if key in out:
+            continue
+        r, w = os.pipe()
+        pid = os.fork()
+        if pid == 0:
+            code = 0
+            try:
+                os.close(r)
+                os.write(w, out_digest(step_fresh(case, step)).encode())
+            except BaseException:
+                code = 1
+            finally:
+                os._exit(code)
+        os.close(w)
+        data = b""
+        while True:
+            chunk = os.read(r, 4096)
+            if not chunk:
+                break
+            data += chunk
+        os.close(r)
+        os.waitpid(pid, 0)
+        out[key] = data.decode() or "EXC:reference child failed"
+    return out
+
+
+def sequence_requests(cases: list) -> list:
+    return [(step_key(c, st), c, st) for c in cases for st in c["steps"] if st["op"] != "scribble"]
+
+
+def start_references(ctx, cases: list, nproc: int = 4):
+    """fork `nproc` reference servers from this (not yet rendering) process; each evaluates its share of the steps
+    in grandchildren and writes {key: digest} to a file.  -> [(pid, path)]"""
+    import os
+    import sys
+    import droplets  # noqa: F401  (imported before the fork: the children share the pristine modules)
+    import droplets.droplet_tracks  # noqa: F401
+    import pde  # noqa: F401
+    reqs, seen = [], set()
+    for r in sequence_requests(cases):
+        if r[0] not in seen:
+            seen.add(r[0])
+            reqs.append(r)
+    ctx.casedir.mkdir(parents=True, exist_ok=True)
+    procs = []
+    sys.stdout.flush()
+    sys.stderr.flush()
+    for j in range(nproc):
+        path = ctx.casedir / f"sequence_reference_{j}.json"
+        if path.exists():
+            path.unlink()
+        pid = os.fork()
+        if pid == 0:
+            code = 0
+            try:
+                res = forked_digests(reqs[j::nproc])
+                tmp = str(path) + ".tmp"
+                with open(tmp, "w") as fh:
+                    json.dump(res, fh)
+                os.replace(tmp, path)
+            except BaseException:
+                code = 1
+            finally:
+                os._exit(code)
+        procs.append((pid, path))
+    return procs
+
+
+def collect_references(procs) -> dict | None:
+    import os
+    out, good = {}, True
+    for pid, path in procs:
+        try:
+            _, status = os.waitpid(pid, 0)
+        except ChildProcessError:
+            status = 0
+        if status != 0 or not path.exists():
+            good = False
+            continue
+        out.update(json.load(open(path)))
+        path.unlink()
+    return out if good else None
+
+
+def same_output(a, b) -> bool:
+    if isinstance(a, str) or isinstance(b, str):
+        return isinstance(a, str) and isinstance(b, str) and a == b
+    return a.dtype == b.dtype and a.shape == b.shape and a.tobytes() == b.tobytes()
+
+
+def check_sequence(case: dict, hist=None, refs: dict | None = None) -> list[dict]:
+    """one sequence case; refs = reference digests {key: digest} (None: computed here by forking before the first
+    rendering of this function -- meaningful in a process that has not rendered yet, e.g. a replay)"""
+    out = []
+    try:
+        if refs is None:
+            refs = forked_digests(sequence_requests([case]))
+        _check_sequence(case, hist, refs, out)
+    except Exception as e:
+        out.append({"what": f"result of the wrong kind: the sequence oracle could not evaluate it ({exc_kind(e)}: {e})",
+                    "check": "sequence", "input": case})
+    return out
+
+
+def _check_sequence(case: dict, hist, refs: dict, out: list) -> None:
+    from droplets.emulsions import Emulsion
+
+    def fail(what, k=None, **kw):
+        out.append({"what": what, "check": "sequence", "input": case,
+                    **({"step": k, "step_spec": case["steps"][k]} if k is not None else {}), **kw})
+
+    wit: list = []
+    try:
+        grids = [make_grid(g) for g in case["grids"]]
+        mgrid = make_grid(case["mismatch_grid"])
+        drops = [make_droplet(d, wit) for d in case["droplets"]]
+        ems = [Emulsion([drops[i] for i in e["members"]], copy=e.get("copy", True)) for e in case["emulsions"]]
+    except Exception as e:
+        fail(f"constructing valid droplets / grids raised {exc_kind(e)}: {e}")
+        return
+    vshared = {}
+    for st in case["steps"]:
+        if st.get("vshared"):
+            key = (float(st["vmin"]), float(st["vmax"]))
+            vshared.setdefault(key, (np.array(key[0]), np.array(key[1])))
+    v0 = {k: (arr_state(a), arr_state(b)) for k, (a, b) in vshared.items()}
+    d0 = [droplet_state(d) for d in drops]
+    allgrids = grids + [mgrid]
+    g0 = [grid_cache_state(g) for g in allgrids]
+    e0 = [[droplet_state(d) for d in e] for e in ems]
+    outs: list = []  # (step index, output object kept alive, content it must keep)
+    nsteps = len(case["steps"])
+
+    def inspect(k, which_d, which_g, which_e):
+        """nothing the caller owns or the grids cache has changed (objects of step k; everything after the last step)"""
+        for i in which_d:
+            if droplet_state(drops[i]) != d0[i]:
+                fail("a droplet of the pool was changed by a step of the sequence", k, droplet=i)
+                d0[i] = droplet_state(drops[i])
+        for i in which_g:
+            cs = grid_cache_state(allgrids[i])
+            if cs != g0[i]:
+                changed = [a[0] for a, b in zip(cs, g0[i]) if a != b]
+                fail("cached data of a grid of the pool was changed by a step of the sequence", k, grid=i, attributes=changed)
+                g0[i] = cs
+        for i in which_e:
+            cur = [droplet_state(d) for d in ems[i]]
+            if cur != e0[i]:
+                fail("an emulsion of the pool was changed by a step of the sequence", k, emulsion=i)
+                e0[i] = cur
+        for name in witnesses_changed(wit):
+            fail(f"a step of the sequence changed the caller's object: {name}", k)
+            wit[:] = [w for w in wit if w[0] != name]
+        for key, (a, b) in vshared.items():
+            if (arr_state(a), arr_state(b)) != v0[key]:
+                fail("a step of the sequence changed the vmin / vmax objects handed in", k)
+                v0[key] = (arr_state(a), arr_state(b))
+        for j, (kk, o, stt) in enumerate(outs):
+            if out_state(o) != stt:
+                fail("the output of an earlier step (kept alive by the caller) was changed by a later step", k, output_of_step=kk)
+                outs[j] = (kk, o, out_state(o))
+
+    for k, st in enumerate(case["steps"]):
+        used_d, used_g, used_e = [], [], []
+        if st["op"] == "scribble":
+            # the caller overwrites an output it owns: nothing else may change
+            for j, (kk, o, _) in enumerate(outs):
+                if kk == st["k"] and not isinstance(o, str):
+                    if o.dtype == np.dtype(bool):
+                        o[...] = ~o
+                    else:
+                        o[...] = 77
+                    outs[j] = (kk, o, out_state(o))
+        else:
+            gi = len(grids) if st["op"] == "mismatch" else st["g"]
+            grid = allgrids[gi]
+            used_g = [gi]
+            if st["op"] == "emulsion":
+                used_e = [st["e"]]
+                used_d = list(case["emulsions"][st["e"]]["members"])
+                res = step_call(st, grid, [], emulsion=ems[st["e"]])
+            else:
+                used_d = [st["d"]]
+                vs = vshared[(float(st["vmin"]), float(st["vmax"]))] if st.get("vshared") else None
+                res = step_call(st, grid, [drops[st["d"]]], vshared=vs)
+            if isinstance(res, np.ndarray) and any(np.shares_memory(res, o) for _, o, _ in outs if not isinstance(o, str)):
+                fail("the output shares its memory with the output of an earlier call", k)
+            outs.append((k, res, out_state(res)))
+            if st["op"] == "mismatch":
+                if res != "EXC:ValueError":
+                    fail(f"dimension mismatch gives {res if isinstance(res, str) else 'a field'}, documented: ValueError", k)
+            elif isinstance(res, str):
+                fail(f"rendering raised {res[4:]} in a sequence", k)
+            fresh = step_fresh(case, st)
+            if not same_output(res, fresh):
+                fail("a call on objects used before differs from the same call on fresh equal objects", k,
+                     differing_cells=(int(np.sum(res != fresh)) if isinstance(res, np.ndarray) and
+                                      isinstance(fresh, np.ndarray) and res.shape == fresh.shape else None))
+            ref = refs.get(step_key(case, st))
+            if ref is None:
+                fail("no reference digest for this step", k)
+            elif ref != out_digest(res):
+                fail("a call in a process that rendered other things before differs from the same call on fresh "
+                     "objects in a process that had not rendered anything", k, got=out_digest(res), reference=ref)
+            if isinstance(res, np.ndarray):
+                gs, dss = step_specs(case, st)
+                if st["op"] == "render":
+                    sub: list = []
+                    pc = {"grid": gs, "droplet": dss[0], "vmin": st["vmin"], "vmax": st["vmax"]}
+                    if res.dtype.kind != "f":
+                        fail(f"field data has dtype {res.dtype}, expected real floating point", k)
+                    elif not np.all(np.isfinite(res)):
+                        fail("field is not finite", k)
+                    else:
+                        judge_picture(pc, res, None, None, None, None,
+                                      lambda what, **kw: sub.append((what, kw)))
+                    for what, kw in sub[:2]:
+                        fail(f"in a sequence: {what}", k, **kw)
+                elif st["op"] == "emulsion":
+                    g2 = make_grid(gs)
+                    total = np.zeros(res.shape)
+                    for d in dss:
+                        total = total + np.asarray(make_droplet(d).get_phase_field(g2).data, dtype=float)
+                    exp_ = np.minimum(np.maximum(total, 0.0), 1.0) if dss else total
+                    if res.shape != exp_.shape or not np.all(np.abs(res - exp_) <= 1e-12):
+                        fail("emulsion rendered after its members is not clip(sum of the members' fields, 0, 1)", k)
+        if k == nsteps - 1:
+            inspect(k, range(len(drops)), range(len(allgrids)), range(len(ems)))
+        else:
+            inspect(k, used_d, used_g, used_e)
+    case["_nontrivial"] = any(isinstance(o, np.ndarray) and o.size and o.min() != o.max() for _, o, _ in outs)
+
+
+def grid_variant(rng, gs: dict) -> tuple:
+    """-> (kind, a grid that shares with `gs` the aggregates a cache could plausibly be keyed on -- family, shape,
+    spacing (or at least mean spacing and cell volume), periodicity -- but differs otherwise)"""
+    g = json.loads(json.dumps(gs))
+    fam = gs["family"]
+    if fam == "cartesian":
+        d = len(gs["shape"])
+        hs = [(hi - lo) / n for (lo, hi), n in zip(gs["bounds"], gs["shape"])]
+        kinds = ["same shape and spacing, other origin", "same box, no periodic axis", "same shape, other period"]
+        if d > 1 and hs[0] != hs[-1]:
+            kinds.append("same shape, mean spacing and cell volume, spacings of two axes swapped")
+        if not any(gs["periodic"]):
+            kinds[1] = "same box, every axis periodic"
+        kind = rng.choice(kinds)
+        if kind.startswith("same shape and spacing"):
+            for k in range(d):
+                off = rng.choice([-1.5, 0.75, 2.25, -0.5, 0.25]) * hs[k]
+                g["bounds"][k] = [gs["bounds"][k][0] + off, gs["bounds"][k][1] + off]
+        elif kind.startswith("same box"):
+            g["periodic"] = [not any(gs["periodic"])] * d
+        elif kind.startswith("same shape, other period"):
+            for k in range(d):
+                lo, hi = gs["bounds"][k]
+                g["bounds"][k] = [lo, lo + 2 * (hi - lo)] if (gs["periodic"][k] or not any(gs["periodic"])) else [lo, hi]
+        else:
+            (l0, _), (l1, _) = gs["bounds"][0], gs["bounds"][-1]
+            g["bounds"][0] = [l0, l0 + gs["shape"][0] * hs[-1]]
+            g["bounds"][-1] = [l1, l1 + gs["shape"][-1] * hs[0]]
+        return kind, g
+    if fam in ("polar", "spherical"):
+        r0, r1 = gs["radius"]
+        h = (r1 - r0) / gs["shape"]
+        kind = rng.choice(["same shape and spacing, other inner radius", "same shape, spacing doubled"])
+        if kind.startswith("same shape and spacing"):
+            g["radius"] = [r0 + h, r1 + h] if r0 == 0 else [0.0, r1 - r0]
+        else:
+            g["radius"] = [r0, r0 + 2 * (r1 - r0)]
+        return kind, g
+    z0, z1 = gs["bounds_z"]
+    kind = rng.choice(["same shape and spacing, z range shifted", "same cylinder, periodicity in z flipped",
+                       "same shape, dr and dz swapped"])
+    if kind.startswith("same shape and spacing"):
+        off = rng.choice([-1.5, 0.75, 2.25]) * (z1 - z0) / gs["shape"][1]
+        g["bounds_z"] = [z0 + off, z1 + off]
+    elif kind.startswith("same cylinder"):
+        g["periodic_z"] = not gs["periodic_z"]
+    else:
+        nr, nz = gs["shape"]
+        dr, dz = gs["radius"] / nr, (z1 - z0) / nz
+        g["radius"] = nr * dz
+        g["bounds_z"] = [z0, z0 + nz * dr]
+    return kind, g
+
+
+def droplet_twin(rng, ds: dict, gs: dict) -> tuple:
+    """-> (kind, a droplet that shares class, record layout and most bytes with `ds` but is another droplet)"""
+    t = json.loads(json.dumps(ds))
+    t.pop("prov", None)
+    kinds = ["same but other radius"]
+    if gs["family"] == "cartesian" or gs["family"] == "cylindrical":
+        kinds += ["same but other centre", "same but other centre"]
+    if any(ds.get("amplitudes", [])):
+        kinds += ["same but amplitudes reversed", "same but amplitudes negated"]
+    if "width" in ds:
+        kinds.append("same but other interface width")
+    kind = rng.choice(kinds)
+    if kind.endswith("radius"):
+        t["radius"] = ds["radius"] * 1.5 + 0.25
+    elif kind.endswith("centre"):
+        k = len(ds["position"]) - 1 if (gs["family"] == "cylindrical" or ds["cls"].endswith("AxisSym")) \
+            else rng.randrange(len(ds["position"]))
+        t["position"][k] = ds["position"][k] + rng.choice([-1.25, 0.75, 1.5])
+    elif kind.endswith("reversed"):
+        t["amplitudes"] = list(reversed(ds["amplitudes"]))
+        if t["amplitudes"] == ds["amplitudes"]:
+            t["amplitudes"][0] = t["amplitudes"][0] + 0.125
+    elif kind.endswith("negated"):
+        t["amplitudes"] = [-a for a in ds["amplitudes"]]
+    else:
+        t["width"] = 0.5 if ds["width"] in (None, 0.0) else (None if rng.random() < 0.5 else 0.0)
+    return kind, t
+
+
+def gen_sequence_cases(rng, n: int) -> list:
+    cases = []
+    mism = {1: {"family": "cartesian", "bounds": [[0, 4], [0, 4]], "shape": [4, 4], "periodic": [True, False]},
+            2: {"family": "cartesian", "bounds": [[0, 4]], "shape": [4], "periodic": [True]},
+            3: {"family": "cartesian", "bounds": [[0, 4], [0, 4]], "shape": [4, 4], "periodic": [False, True]}}
+    for i in range(n):
+        cls = CLASSES[i % len(CLASSES)]
+        dyadic = rng.random() < 0.8
+        gs, on_axis = gen_grid_for(rng, cls, dyadic)
+        if gs["family"] == "cartesian" and not any(gs["periodic"]) and not on_axis and rng.random() < 0.7:
+            gs["periodic"][rng.randrange(len(gs["periodic"]))] = True
+        ds = gen_droplet(rng, cls, gs, dyadic, on_axis)
+        outside = False
+        if gs["family"] == "cartesian" and any(gs["periodic"]) and rng.random() < 0.7:
+            # the centre lies outside the box along a periodic axis (its periodic image is inside)
+            axes = [a for a, p in enumerate(gs["periodic"]) if p and not (on_axis and a < 2)]
+            if axes:
+                k = rng.choice(axes)
+                lo, hi = gs["bounds"][k]
+                if lo <= ds["position"][k] <= hi:
+                    ds["position"][k] += rng.choice([-2, -1, 1, 2]) * (hi - lo)
+                outside = True
+        kinds, grids = [], [gs]
+        for _ in range(rng.choice([1, 1, 2])):
+            kind, g = grid_variant(rng, gs)
+            kinds.append(kind)
+            grids.append(g)
+        tkinds, drops = [], [ds]
+        for _ in range(rng.choice([1, 1, 2])):
+            kind, t = droplet_twin(rng, drops[rng.randrange(len(drops))], gs)
+            tkinds.append(kind)
+            drops.append(t)
+        if rng.random() < 0.5:
+            c2 = rng.choice(compatible_classes(gs, on_axis))
+            drops.append(gen_droplet(rng, c2, gs, dyadic, on_axis))
+        same_cls = [j for j, d in enumerate(drops) if d["cls"] == cls]
+        ems = [{"members": list(range(len(drops))), "copy": rng.random() < 0.5},
+               {"members": same_cls[::-1], "copy": False}]
+        if rng.random() < 0.3:
+            ems.append({"members": [], "copy": True})
+
+        def vp():
+            v = VPAIRS[rng.randrange(len(VPAIRS))]
+            return {"vmin": v[0], "vmax": v[1], **({"vshared": True} if rng.random() < 0.3 else {})}
+
+        order = rng.random() < 0.5  # both orders of the pair (grid A, grid B)
+        a, b = (0, 1) if order else (1, 0)
+        steps = [{"op": "render", "d": 0, "g": a, **vp(), "note": "first picture"},
+                 {"op": "render", "d": 0, "g": b, **vp(), "note": "same droplet on the other grid"},
+                 {"op": "render", "d": 0, "g": a, **vp(), "note": "back on the first grid"}]
+        for _ in range(rng.randint(3, 9)):
+            op = rng.choice(["render"] * 5 + ["typed"] * 2 + ["emulsion"] * 2 + ["mismatch", "scribble", "again"])
+            d, g = rng.randrange(len(drops)), rng.randrange(len(grids))
+            done = [j for j, st in enumerate(steps) if st["op"] not in ("scribble", "mismatch")]
+            if op == "render":
+                steps.append({"op": "render", "d": d, "g": g, **vp()})
+            elif op == "typed":
+                steps.append({"op": "typed", "d": d, "g": g, "dtype": rng.choice(sorted(EXTRA_DTYPES))})
+            elif op == "emulsion":
+                steps.append({"op": "emulsion", "e": rng.randrange(len(ems)), "g": g})
+            elif op == "mismatch":
+                steps.append({"op": "mismatch", "d": d})
+            elif op == "scribble":
+                steps.append({"op": "scribble", "k": rng.choice(done)})
+            else:  # exactly the same call as an earlier step
+                steps.append({k: v for k, v in steps[rng.choice(done)].items() if k != "note"})
+        # emulsions after their members were rendered individually, on every grid; then the very first call again
+        for g in range(len(grids)):
+            steps.append({"op": "emulsion", "e": rng.randrange(2), "g": g})
+        steps.append({k: v for k, v in steps[0].items() if k != "note"})
+        cases.append({"grids": grids, "droplets": drops, "emulsions": ems, "steps": steps,
+                      "mismatch_grid": mism[grid_dim(gs)],
+                      "tags": {"grid_variants": kinds, "droplet_twins": tkinds, "first_grid_first": order,
+                               "centre_outside_on_periodic_axis": outside}})
+    return cases
+
+
+CHECKS = {"render": check_render, "roll": check_roll, "emulsion": check_emulsion, "mismatch": check_mismatch,
+          "sequence": check_sequence}
 
 
 # =========================================================================================
@@ -2057,9 +2583,67 @@ def run_oracle(ctx, rng, scale_q, scale_t, record=True):
     return fails, em_cases
 
 
+def run_sequences(ctx, cases: list, procs) -> list:
+    """the sequence oracle (state kept between calls) with the reference digests of the forked servers"""
+    import time
+    t0 = time.time()
+    refs = collect_references(procs)
+    ctx.extra["sequence_wait_for_references_s"] = round(time.time() - t0, 2)
+    if refs is None:
+        ctx.broken.append("sequence oracle: the reference processes (fresh-state evaluation) did not deliver")
+        refs = {}
+    fails = []
+    for case in cases:
+        if not refs:
+            refs_case = {step_key(case, st): out_digest(step_fresh(case, st)) for st in case["steps"] if st["op"] != "scribble"}
+        fs = check_sequence(case, ctx.count, refs if refs else refs_case)
+        fails += [{**f, "input": _strip(f["input"])} for f in fs]
+        ctx.case(["sequence", _strip(case)], nontrivial=case.get("_nontrivial", False))
+        t = case["tags"]
+        g0 = case["grids"][0]
+        ctx.count("sequence_first_grid", g0["family"] + (str(len(g0["shape"])) if g0["family"] == "cartesian" else ""))
+        ctx.count("sequence_class_of_first_droplet", case["droplets"][0]["cls"])
+        for k in t["grid_variants"]:
+            ctx.count("sequence_second_grid", k)
+        for k in t["droplet_twins"]:
+            ctx.count("sequence_twin_droplet", k)
+        ctx.count("sequence_order_of_the_two_grids", "A then B then A" if t["first_grid_first"] else "B then A then B")
+        ctx.count("sequence_centre_outside_on_periodic_axis_at_first_render", t["centre_outside_on_periodic_axis"])
+        pa, pb = (any(g.get("periodic", [g.get("periodic_z", False)])) if g["family"] in ("cartesian", "cylindrical")
+                  else False for g in case["grids"][:2])
+        ctx.count("sequence_periodicity_of_the_two_grids", f"{'periodic' if pa else 'open'} / {'periodic' if pb else 'open'}")
+        ctx.count("sequence_length", "<= 8 steps" if len(case["steps"]) <= 8 else ("9..12 steps" if len(case["steps"]) <= 12 else "> 12 steps"))
+        ctx.count("sequence_pool", f"{len(case['grids'])} grids, {len(case['droplets'])} droplets")
+        seen = set()
+        for st in case["steps"]:
+            ctx.count("sequence_step", st["op"] + (" (vmin / vmax objects shared between calls)" if st.get("vshared") else ""))
+            key = json.dumps({k: v for k, v in st.items() if k != "note"}, sort_keys=True)
+            if st["op"] != "scribble":
+                ctx.count("sequence_step_repeats_an_earlier_call", key in seen)
+                seen.add(key)
+        ctx.count("sequence_emulsion_of_the_very_member_objects", sum(1 for st in case["steps"] if st["op"] == "emulsion"
+                                                                      and not case["emulsions"][st["e"]].get("copy", True)))
+    ctx.count("sequence_reference", "fresh objects in processes forked before anything was rendered" if refs
+              else "fresh objects in this process only (reference processes failed)")
+    if cases:
+        ctx.sample({"sequence_case": {k: v for k, v in _strip(cases[0]).items() if k != "tags"}})
+    ctx.extra["sequence_oracle_s"] = round(time.time() - t0, 2)
+    return fails
+
+
 def check(ctx: vlib.Ctx) -> int:
     import droplets
+    import gen_shapes
     ctx.extra["implementation"] = str(droplets.__file__)
+    # sequences (state kept between calls): the references are evaluated in processes forked NOW, before this
+    # process renders anything; twice as many cases when the translator refuses the current source
+    try:
+        gen_shapes.gen_shapes()
+        refused = False
+    except Exception:
+        refused = True
+    seq_cases = gen_sequence_cases(random.Random(ctx.seed + 7), ctx.scale(160, 1400) * (2 if refused else 1))
+    seq_procs = start_references(ctx, seq_cases)
     ok, fresh = prove_with_fallback(ctx)
     gen_ok = not any("translator failed closed" in n for n in ctx.notes)
     if not gen_ok:
@@ -2076,6 +2660,7 @@ def check(ctx: vlib.Ctx) -> int:
     fails, em_cases = run_oracle(ctx, random.Random(ctx.seed + 4), 4000 if not big else 8000, 48000)
     if ok:
         correspondence_emulsion_q(ctx, random.Random(ctx.seed + 5), em_cases)
+    fails += run_sequences(ctx, seq_cases, seq_procs)
     # a short, deterministic list of violations: at most two failing inputs per kind of failure
     cand = list(ctx.violations) + [{**f, "found": True} for f in fails]
     ctx.violations, seen = [], {}
@@ -2088,7 +2673,8 @@ def check(ctx: vlib.Ctx) -> int:
     ctx.notes.append("input dimensions audited against notes/input_dimensions.md (see the module docstring and the "
                      "histogram keys grid_*, cyl_*, centre_*, periodic_faces_crossed, touches_*, amplitudes_*, ctor_*, "
                      "provenance, vmin_vmax_*, typed_image_dtype, label_*, rendered_twice, emulsion_*, roll_*, mask_*, "
-                     f"sym_mask_*, angle_grid_family); suspected defects kept out of the judgement: {len(SUSPECTED)}")
+                     f"sym_mask_*, angle_grid_family, sequence_* = state kept between calls); suspected defects kept "
+                     f"out of the judgement: {len(SUSPECTED)}")
     ctx.extra["failure_kinds"] = {f"{k[0]}: {k[1]}": n for k, n in seen.items()}
     # known finding F19 (periodic cylindrical grids are never wrapped in z by py-pde 0.58.0): replay the
     # recorded input; print KNOWN-FINDING while it still fails and the entry is listed
